@@ -150,8 +150,13 @@ def main(argv=None):
     ap.add_argument('--replay')
     ap.add_argument('--jobs', type=int)
     ap.add_argument('--func')
+    ap.add_argument('--relock', nargs='*')
     a = ap.parse_args(argv)
     try:
+        if a.relock is not None:
+            from pyvc import report
+            report.relock([a.pid] + list(a.relock), lambda pid, tier, jobs, verbose=True: run_property(pid, tier, jobs, verbose))
+            return 0
         if a.func:
             load_contracts()
             r = verify_function(a.func, [a.pid] if a.pid != '-' else None)
